@@ -1595,8 +1595,8 @@ def balance_stoichiometry(
         for x in sol:
             if len(x.free_symbols) != 0:
                 raise ValueError("The system was under-determined")
-        if not all(residual == 0 for residual in A * sol):
-            raise ValueError("Failed to balance reaction")
+    if not all(residual.expand() == 0 for residual in A * sol):
+        raise ValueError("Failed to balance reaction")
 
     def _x(k):
         coeff = sol[subst_keys.index(k)]
